@@ -1022,6 +1022,21 @@ def m_dict_get(I, recv, args, kw):
 def m_dict_items(I, recv, args, kw):
     if isinstance(recv, PDict):
         return tuple((k, v) for k, v in recv.d.items())
+    if isinstance(recv, SMapZ):
+        # a collection of unknown size: an arbitrary element is a present key with its value (iteration order abstracted;
+        # distinctness of the visited keys is NOT modelled - obligations over such loops must not depend on it)
+        from ..values import wrap, usort as _us
+
+        def mk(I2, m=recv, has=recv.has, val=recv.val):
+            ks = has.sort().domain()
+            k = I2.ctx.fresh("key", ks)
+            I2.ctx.assume(z3.Select(has, k))
+            if getattr(m, "key_assume", None) is not None:
+                I2.ctx.assume(m.key_assume(k))      # harness-stated precondition on every key of the map
+            it.fields["last_key"] = k
+            return (wrap(m.kkind, k), wrap(m.vkind, z3.Select(val, k)))
+        it = TheoryObj("symiter", fields={"mk": mk, "of_map": recv})
+        return it
     raise Unsupported("items() of a symbolic map")
 
 
@@ -1170,6 +1185,14 @@ def _symiter_delitem(I, o, a, k):
 def install(reg):
     reg.theory_methods[("symiter", "__delitem__")] = _symiter_delitem
     reg.theory_methods[("symiter", "append")] = _symiter_append
+
+    def _symiter_clear(I, o, a, k):
+        o.fields["nonempty"] = z3.BoolVal(False)
+        o.fields["len"] = z3.IntVal(0)
+        o.fields["removed_some"] = True
+        return None
+    reg.theory_methods[("symiter", "clear")] = _symiter_clear
+    reg.theory_methods[("symiter", "remove")] = _symiter_delitem
     reg.theory_methods[("pyobject", "__eq__")] = _opaque_eq
     reg.theory_methods[("pyobject", "__ne__")] = lambda I, o, a, k: SBool(z3.Not(_opaque_eq(I, o, a, k).z))
     reg.theory_methods[("symdict", "get")] = _symdict_get
